@@ -166,9 +166,19 @@ def accumulate(ctx, rep, clause):
                 tgt = x
             if tgt is not None:
                 stores.append(tgt)
+        for x in walk_own(f.node):
+            if isinstance(x, ast.Call) and isinstance(x.func, ast.Attribute) and x.func.attr == 'update' and \
+                    isinstance(x.func.value, ast.Name) and x.func.value.id in names:
+                n += 1
+                ob(rep, 'ACC', f.fq, f'`{norm_stmt(x)}` accumulates', False, '',
+                   f'`{norm_stmt(x)}` overwrites counts already collected for the same element: parsing is no longer '
+                   f'additive across components (C2[13C]C3 would have 3 carbons)', f.loc(x), clause)
+                stores.append(x)
         if not stores:
             raise AnalysisError(f'{fname}: no store into the result dictionary found')
         for st in stores:
+            if isinstance(st, ast.Call):
+                continue
             n += 1
             if isinstance(st, ast.AugAssign):
                 ok = isinstance(st.op, ast.Add)
@@ -211,11 +221,50 @@ def writer_and_mass(ctx, rep, clause):
        'counts of 1 are omitted or the form changed', g.loc(), clause)
 
 
+def glycan_tokenizer(ctx, rep, clause):
+    """the glycan tokenizer matches the longest known name at the cursor; it must not rewrite the formula in a way
+    that destroys a character some bundled name contains (data fact: names and synonyms of the monosaccharide table)"""
+    import re as _re
+    program = ctx.program
+    names = set()
+    with open(os.path.join(program.pkg_dir, 'data', 'monosaccharides_updated.obo')) as fh:
+        for line in fh:
+            if line.startswith('name: '):
+                names.add(line[len('name: '):].strip())
+            elif line.startswith('synonym: '):
+                m = _re.search(r'"([^"]+)"', line)
+                if m:
+                    names.add(m.group(1))
+    if len(names) < 20:
+        raise AnalysisError('monosaccharide names not read')
+    f = program.func('peptacular.mods.mod_db_setup:_parse_glycan_formula')
+    k = 0
+    for n in walk_own(f.node):
+        if isinstance(n, ast.Call) and isinstance(n.func, ast.Attribute) and n.func.attr in ('replace', 'strip', 'translate') \
+                and n.args and isinstance(n.args[0], ast.Constant) and isinstance(n.args[0].value, str):
+            k += 1
+            ch = n.args[0].value
+            hit = sorted(x for x in names if ch and ch in x)
+            ob(rep, 'TOK-glycan', f.fq, f'`{norm_stmt(n)[:60]}` does not destroy a character of a known name', not hit,
+               'no bundled name contains it', f'`{norm_stmt(n)[:60]}` removes {ch!r}, which occurs in the bundled '
+               f'name(s) {hit[:3]}: a glycan written with such a name no longer parses to what it was written from',
+               f.loc(n), clause)
+    longest = any('names_sorted' in norm_stmt(n.iter) for n in walk_own(f.node) if isinstance(n, ast.For))
+    ob(rep, 'TOK-glycan', f.fq, 'names are tried longest first', longest, 'MONOSACCHARIDES_DB.names_sorted',
+       'the tokenizer no longer iterates the length-sorted name list: a short name would shadow a longer one', f.loc(),
+       clause)
+    g = program.func('peptacular.mods.mod_db_setup:EntryDb._get_names_sorted')
+    txt = ' '.join(norm_stmt(s) for s in g.node.body)
+    ob(rep, 'TOK-glycan', g.fq, 'the name list is sorted by length, descending', 'key=lambda x: len(x), reverse=True' in txt,
+       'longest match first', 'the name list is not sorted longest-first', g.loc(), clause)
+
+
 def check(ctx, rep):
     rep.explanation = EXPLANATION
     token_language(ctx, rep, 'C15a')
     predicates(ctx, rep, 'C15b')
     accumulate(ctx, rep, 'C15c')
     writer_and_mass(ctx, rep, 'C15d')
+    glycan_tokenizer(ctx, rep, 'C15e')
     from . import C10
     C10.lookup_order(ctx, rep, 'C15e')
